@@ -420,7 +420,7 @@ META = {
                   "initial committed value": "never set / None / 0..2; collections: never set / [] / [0] / [0,1]",
                   "instance": "new (transient) and loaded (detached via make_transient_to_detached)",
                   "collection replacement": "[], [0], [0,1], [2,1]"},
-        "thorough": {"history length": "5 for scalar / many-to-one attributes, 4 for collections", "scalar values": "None, 0, 1, 2",
+        "thorough": {"history length": "5 for the scalar and the many-to-one attribute, 4 for their active_history variants and for collections", "scalar values": "None, 0, 1, 2",
                      "object pool": "3"},
     },
     "outside": [
@@ -443,7 +443,7 @@ def harnesses(tier: str) -> List[Harness]:
     q = tier == "quick"
     sl = []
     for kind in KINDS:
-        n = 3 if q else (5 if kind in SCALARS else 4)
+        n = 3 if q else (5 if kind in ("scalar", "m2o") else 4)
         for loaded in (False, True):
             for c0 in range(len(steps_of(kind))):
                 sl.append(dict(kind=kind, loaded=loaded, n=n, c0=c0))
